@@ -219,6 +219,30 @@ func (t *translator) run(roots []string) error {
 		optional := strings.HasPrefix(pat, "?")
 		pat = strings.TrimPrefix(pat, "?")
 		n := 0
+		// "pkg:$Var": a package-level table on its own
+		if parts := strings.SplitN(pat, ":", 2); len(parts) == 2 && strings.HasPrefix(parts[1], "$") {
+			for _, p := range t.all {
+				if ok, _ := path.Match(parts[0], relPkg(p.PkgPath)); !ok {
+					continue
+				}
+				names := p.Types.Scope().Names()
+				for _, nm := range names {
+					if ok, _ := path.Match(parts[1][1:], nm); !ok {
+						continue
+					}
+					if v, ok := p.Types.Scope().Lookup(nm).(*types.Var); ok {
+						n++
+						if _, err := t.useVar(v, token.Position{Filename: pat}); err != nil && !optional {
+							return err
+						}
+					}
+				}
+			}
+			if n == 0 {
+				return fmt.Errorf("root pattern %q matches nothing", pat)
+			}
+			continue
+		}
 		for _, o := range objs {
 			if matchRoot(pat, o) {
 				n++
